@@ -191,12 +191,16 @@ def build_events(cli, drv, tmp, thorough, rep):
         for frac in (3, 2):
             cut = toks[len(toks) // frac]
             inval.append((name, "truncate@%d" % cut.line, text[:cut.pos]))
+        # lexically invalid: a character no token can start with, outside strings and comments
+        for k, ch in enumerate("#$?~!"):
+            at = toks[(k * 7 + 3) % len(toks)]
+            inval.append((name, "badchar%s@%s" % (ch, at.type), text[:at.pos] + ch + " " + text[at.pos:]))
     outs = fm.many([x[2] for x in inval])
     for (name, mut, t), o in zip(inval, outs):
         try:
             e0 = ems_of(t)
         except dsltok.LexError:
-            continue
+            e0 = [{"c": False, "x": "<unlexable>"}]
         m = {"doc": name, "group": "invalid", "mut": mut}
         ev({"ev": "doc", "id": name + ":" + mut, "text": sha(t), "ems": e0, "valid": False}, dict(m))
         if o.get("ok") or o.get("panic"):
